@@ -189,7 +189,7 @@ def run(chk):
     # ---- supporting: readers against the real reload ----
     plan = [("corpus/" + n, t) for n, t in corpus_scripts()]
     for i in range(2 if quick else 6):
-        lines, evs, meta = gen_conversation(rnd, nreloads=250 if quick else 1200, setsize=rnd.choice([150, 400]), nkeys=8, disjoint=(i % 2 == 1))
+        lines, evs, meta = gen_conversation(rnd, nreloads=500 if quick else 1500, setsize=rnd.choice([150, 400]), nkeys=8, disjoint=(i % 2 == 1))
         plan.append(("gen%d %s" % (i, meta), "\n".join(script_text(lines, evs, readers)) + "\n"))
     totals = {"reader_ops": 0, "key_ops": 0, "during_reload": 0, "during_reload_answer_differs": 0, "reloads_done": 0, "callbacks": 0}
     runs, findings = [], {}
